@@ -38,18 +38,19 @@ FullRun(p) == << S("Start", p, "run"), S("TryLock", p, ""), S("RunChoose", p, ""
 FullCpUpdate(p) == << S("Start", p, "cp_update"), S("TryLock", p, ""), S("CpReadTruncate", p, ""), S("CpWrite", p, ""), S("Finish", p, "") >>
 Show(p) == << S("Start", p, "result_show"), S("ResultShow", p, "") >>
 Ana(p) == << S("Start", p, "analyze"), S("Analyze", p, "") >>
+CpS(p) == << S("Start", p, "cp_show"), S("CpShow", p, "") >>
 Script ==
   CASE ScriptId = 1 -> \* a run right after a checkpoint update with nothing changed (covers no target), then readers
-         FullCpUpdate(1) \o FullRun(1) \o Show(2) \o Ana(2) \o FullRun(2) \o Show(1)
+         CpS(2) \o FullCpUpdate(1) \o CpS(2) \o FullRun(1) \o Show(2) \o Ana(2) \o FullRun(2) \o Show(1) \o CpS(1)
     [] ScriptId = 2 -> \* completed run, a run killed after its result was stored but before the pointer moved, readers, next run
          FullRun(1) \o SubSeq(FullRun(1), 1, 8) \o << S("Crash", 1, "") >> \o Show(2) \o FullRun(2) \o Show(1) \o FullRun(1) \o Show(2)
     [] ScriptId = 3 -> \* checkpoint update killed inside its rewrite window; what analyze, run, checkpoint delete and out delete do then
-         << S("EnvEdit", 0, "") >> \o SubSeq(FullCpUpdate(1), 1, 3) \o << S("Crash", 1, "") >> \o Ana(2)
-           \o SubSeq(FullRun(1), 1, 6) \o << S("Finish", 1, ""), S("Start", 1, "cp_delete"), S("TryLock", 1, ""), S("CpDelete", 1, ""), S("Finish", 1, "") >> \o Ana(2)
-           \o << S("Start", 1, "out_delete"), S("TryLock", 1, ""), S("OutDelete", 1, ""), S("Finish", 1, "") >> \o Ana(2) \o FullCpUpdate(2) \o Ana(1)
+         << S("EnvEdit", 0, "") >> \o SubSeq(FullCpUpdate(1), 1, 3) \o << S("Crash", 1, "") >> \o Ana(2) \o CpS(2)
+           \o SubSeq(FullRun(1), 1, 6) \o << S("Finish", 1, ""), S("Start", 1, "cp_delete"), S("TryLock", 1, ""), S("CpDelete", 1, ""), S("Finish", 1, "") >> \o Ana(2) \o CpS(2)
+           \o << S("Start", 1, "out_delete"), S("TryLock", 1, ""), S("OutDelete", 1, ""), S("Finish", 1, "") >> \o Ana(2) \o CpS(2) \o FullCpUpdate(2) \o Ana(1) \o CpS(1)
     [] ScriptId = 4 -> \* edits and a commit while a run is parked before it reads the repository; contenders meanwhile
          FullCpUpdate(1) \o SubSeq(FullRun(1), 1, 5) \o << S("EnvEdit", 0, "af"), S("Start", 2, "cp_update"), S("TryLock", 2, ""),
-              S("EnvEdit", 0, "cf"), S("EnvCommitAll", 0, ""), S("RunReadRepo", 1, "") >> \o Ana(2) \o SubSeq(FullRun(1), 7, 10) \o Show(2)
+              S("EnvEdit", 0, "cf"), S("EnvCommitAll", 0, ""), S("RunReadRepo", 1, "") >> \o Ana(2) \o CpS(2) \o SubSeq(FullRun(1), 7, 10) \o Show(2)
     [] ScriptId = 5 -> \* after a killed run: a run that covers no target (checkpoint just updated), completed; then another such run
                        \* killed after its result was stored but before the pointer moved; readers; the next run
          FullRun(1) \o SubSeq(FullRun(1), 1, 4) \o << S("Crash", 1, "") >> \o FullCpUpdate(2) \o FullRun(2) \o Show(1)
@@ -82,10 +83,11 @@ SNext ==
              \/ Finish(p) /\ Log("Finish", p, <<inv[p].api>>)
              \/ Analyze(p) /\ Log("Analyze", p, <<>>)
              \/ ResultShow(p) /\ Log("ResultShow", p, <<>>)
+             \/ CpShow(p) /\ Log("CpShow", p, <<>>)
   \/ \E p \in Procs : ncrash < MaxCrashes /\ Thin(6) /\ Crash(p) /\ ncrash' = ncrash + 1 /\ Log("Crash", p, <<inv[p].api, inv[p].pc>>)
 SSpec == SInit /\ [][SNext]_svars
 
 Emit == (EmitDepth > 0 /\ Len(hist) = EmitDepth) => PrintT(<<"BEH", ToJson([hist |-> hist])>>)
 \* the obligations of Monorail.tla hold along every replayed behaviour too
-SessionInv == AtMostOneHolder /\ HolderIsPastLock /\ ResultShowNeverTorn /\ RunCoversAffected /\ AnalyzeNeverMixes
+SessionInv == AtMostOneHolder /\ HolderIsPastLock /\ ResultShowNeverTorn /\ RunCoversAffected /\ AnalyzeNeverMixes /\ CpShowNeverMixes
 =============================================================================
